@@ -342,7 +342,7 @@ func c16History(res *vlib.Result, hist []string) {
 func C16Plan() *vlib.Plan {
 	p := &vlib.Plan{
 		Property: "C16", Level: "exploration",
-		Rule:   "E-ENUM full product: sinful in {plain, with params, with sock=, with embedded '#', bracketed IPv6} x Encryption/Integrity in {unset, true, false}^2 x cipher list in {'', AES, AESGCM, 'AES,BLOWFISH', 'AES,3DES,BLOWFISH'} x ValidCommands in {none, [443], [443,444]} x lifetime in {0, 60 s, 20 years, 100 years (expiry beyond 2^31-1 s)} x version in {'', long, short} x direction (importer dials / minter dials) x tag; each pair: cache entries compared (id, key, Encryption/Integrity/cipher/commands, expiry), public form searched for the secret, policy text render/parse fixed point, then a real resumption handshake (no negotiation on the wire) with ping/pong both ways, by session id and - when the claim lists commands - by command (the dialer's cache must route tag, peer address and command to the claim session). Plus every single-character alteration of the secret in both directions, and every history of <= 3 (thorough 4) imports into ONE importer cache over {intact id, id with the first / last secret character altered, intact id of a second claim}: whenever the last import of the claim is the intact id, key and expiry must equal the minter's and resumption must work both ways. Non-trivial = mint succeeded; ids distinct by construction.",
+		Rule:   "E-ENUM full product: sinful in {plain, with params, with sock=, with embedded '#', bracketed IPv6} x Encryption/Integrity in {unset, true, false}^2 x cipher list in {'', AES, AESGCM, 'AES,BLOWFISH', 'AES,3DES,BLOWFISH'} x ValidCommands in {none, [443], [443,444]} x lifetime in {0, 60 s, 20 years, 100 years (expiry beyond 2^31-1 s)} x version in {'', long, short} x direction (importer dials / minter dials) x tag; each pair: cache entries compared (id, key, Encryption/Integrity/cipher/commands, expiry), public form searched for the secret, policy text render/parse fixed point, then a real resumption handshake (no negotiation on the wire) with ping/pong both ways, by session id and - when the claim lists commands - by command (the dialer's cache must route tag, peer address and command to the claim session). Plus every single-character alteration of the secret in both directions, and every history of <= 3 (thorough 4) imports into ONE importer cache over {intact id, id with the first / last secret character altered, intact id of a second claim}: whenever the last import of the claim is the intact id, key and expiry must equal the minter's and resumption must work both ways. Plus the library client (client.ConnectAndAuthenticateWithConfig) over loopback sockets: 8 address templates x {direct, scripted shared_port front end} x direction x tag, by command: the claim session is resumed with ping/pong. Non-trivial = mint succeeded; ids distinct by construction.",
 		Assume: []string{"peer caches are private per case (no process-global state involved)"},
 	}
 	p.Gen = func(tier string, yield func(vlib.Case)) {
@@ -381,6 +381,20 @@ func C16Plan() *vlib.Plan {
 					}})
 				}
 			}
+		}
+		// the library's own client over real loopback sockets (direct and through a shared_port front end)
+		for ti := range c16LibSinfuls {
+			ti := ti
+			yield(vlib.Case{ID: fmt.Sprintf("library-client/template=%d", ti), Run: func() *vlib.Result {
+				res := &vlib.Result{}
+				for dir := 0; dir < 2; dir++ {
+					for tag := 0; tag < 2; tag++ {
+						c16LibOne(res, ti, dir, tag)
+					}
+				}
+				res.Sample = map[string]any{"template": c16LibSinfuls[ti].tmpl}
+				return res
+			}})
 		}
 		// import histories into one importer cache
 		hd := 3
